@@ -14,5 +14,6 @@ CONSTANTS
   LockLocals = TRUE
   GCachePrefilled = TRUE
   FillGlobalCachesUnderLock = FALSE
+  SharedScratch = FALSE
 INVARIANTS RaceLog TextLog
 CHECK_DEADLOCK FALSE
